@@ -142,6 +142,67 @@ def share_axes(rng, pa, pb):
     return PatternedTensor(pb.physical, tuple(mapping.get(k, k) for k in pb.paxes), tuple(ren(e) for e in pb.vaxes), pb.default)
 
 
+def queue_patsolve(ctx, name, pa, pb, xp, case):
+    """queue the representation-level comparison of PatternedTensor.solve with the model `Ps.solve` (growth loop on patterns, relevant
+    sub-matrices through project, dense elimination, pattern of the result)"""
+    if name not in ('real', 'viterbi', 'bool') or any(k_._numel == 0 for k_ in tuple(pa.paxes) + tuple(pb.paxes)):
+        return
+    from fggs.indices import PhysicalAxis as _P, ProductAxis as _X
+    ids = {}
+    def enc(p_, tag):
+        def key(k_):
+            return ids.setdefault((tag, id(k_)), len(ids))
+        pa_ = enc_list(p_.paxes, lambda k_: f'{key(k_)} {k_._numel}')
+        def ea(e):
+            if isinstance(e, _P): return f'P {key(e)} {e._numel}'
+            if isinstance(e, _X): return 'X ' + enc_list(e.factors, ea)
+            return f'S {e.before} {ea(e.term)} {e.after}'
+        ph = p_.physical.to(torch.float64) if p_.physical.dtype == torch.bool else p_.physical
+        return f'{enc_list(ph.contiguous().reshape(-1).tolist() if ph.numel() else [], enc_ext)} {pa_} {enc_list(p_.vaxes, ea)} {enc_ext(float(p_.default))}', ea
+    ea_, _ = enc(pa, 'a'); eb_, _ = enc(pb, 'b')
+    ids2 = {}
+    def ea2(e):
+        if isinstance(e, _P): return f'P {ids2.setdefault(id(e), len(ids2))} {e._numel}'
+        if isinstance(e, _X): return 'X ' + enc_list(e.factors, ea2)
+        return f'S {e.before} {ea2(e.term)} {e.after}'
+    ph = xp.physical.to(torch.float64) if xp.physical.dtype == torch.bool else xp.physical
+    vals = ph.contiguous().reshape(-1).tolist() if ph.numel() else []
+    pat = f'{enc_list(xp.paxes, lambda k_: "P " + str(ids2.setdefault(id(k_), len(ids2))) + " " + str(k_._numel))} {enc_list(xp.vaxes, ea2)} {enc_ext(float(xp.default))}'
+    ctx.extra.setdefault('_ps_reqs', []).append(f'C09.patsolve {name} {ea_} {eb_} {len(ids) + 3}')
+    ctx.extra.setdefault('_ps_meta', []).append((dict(case, stream='patsolve-model'), name, vals, pat))
+
+
+def run_patsolve_model(ctx):
+    from .unifygen import canon
+    from .common import dec_ext
+    reqs, meta = ctx.extra.pop('_ps_reqs', []), ctx.extra.pop('_ps_meta', [])
+    for (case, name, vals, pat), rep in zip(meta, ctx.driver.ask_many(reqs)):
+        if isinstance(rep, Exception):
+            raise rep
+        ctx.evaluations += 1
+        if not rep.startswith('ok'):
+            ctx.disagree(f'Ps.solve: the model {rep.split()[0]} where PatternedTensor.solve returns a tensor', case, 'ok', rep[:100])
+            continue
+        toks = rep.split()[1:]
+        i = 0; L = int(toks[i]); phys = toks[i + 1:i + 1 + L]; i += 1 + L
+        P = int(toks[i]); pax = toks[i + 1:i + 1 + 2 * P]; i += 1 + 2 * P
+        mp = [str(P)] + sum((['P', pax[2 * j], pax[2 * j + 1]] for j in range(P)), []) + toks[i:-2]
+        wf, closed = toks[-2], toks[-1]
+        ctx.count(f'patsolve-model.{name}.' + ('closed' if closed == 'T' else 'NOT-closed'))
+        if canon(mp) != canon(pat.split()):
+            ctx.disagree('Ps.solve: pattern of the result (physical axes, virtual axes, default)', case, pat, ' '.join(mp))
+            continue
+        mv = [dec_ext(x) for x in phys]
+        ok = len(mv) == len(vals) and all((a == b) or (name == 'real' and math.isfinite(a) and math.isfinite(b) and abs(a - b) <= 1e-9 * max(1.0, abs(a), abs(b)))
+                                          for a, b in zip(mv, vals))
+        if not ok:
+            ctx.disagree('Ps.solve: physical values of the result', case, vals, mv)
+        if wf != 'T':
+            ctx.disagree('Ps.solve: the model\'s result is not well formed (PT.wf)', case, 'T', wf)
+        if closed != 'T':
+            ctx.disagree('Ps.closed: the axis computed by the growth loop is not closed under A / does not cover b (hypothesis of C09d)', case, 'T', closed)
+
+
 def run(ctx):
     S = srs()
     # ---- dense Semiring.solve and PatternedTensor.solve
@@ -231,6 +292,7 @@ def run(ctx):
                 ctx.fail('PatternedTensor.solve returned a result of the wrong shape', case, list(Xp.shape), list(pb.shape), tags=['shape', 'PatternedTensor.solve'])
                 continue
             check_system(ctx, dict(case, patterned=True), name, A, B, Xp.reshape(n, -1), 'PatternedTensor.solve')
+            queue_patsolve(ctx, name, pa, pb, xp, dict(semiring=name, a_pattern=case['a_pattern'], b_pattern=case['b_pattern']))
     # ---- structured family: A stored over three physical axes (k, j, i) as (k*j, j'*i) with j = j' shared, b a diagonal (d*d) or
     #      a product (d*e) whose axes are fresh or are A's own axis objects (solve must rename b apart from A)
     from fggs.indices import ProductAxis
@@ -340,7 +402,8 @@ def run(ctx):
             ctx.count(f'patterned-solve.growth-family.{name}')
             da, db = pa.to_dense().clone(), pb.to_dense().clone()
             try:
-                Xp = from_sr(pa.solve(pb, S[name]).to_dense(), name)
+                xp_ = pa.solve(pb, S[name])
+                Xp = from_sr(xp_.to_dense(), name)
             except Exception as ex:  # noqa
                 ctx.fail(f'PatternedTensor.solve raised {type(ex).__name__}: {str(ex)[:80]}', case, repr(ex), None,
                          tags=['raises', 'PatternedTensor.solve', name, type(ex).__name__])
@@ -351,6 +414,7 @@ def run(ctx):
                 ctx.fail('PatternedTensor.solve returned a result of the wrong shape', case, list(Xp.shape), list(pb.shape), tags=['shape', 'PatternedTensor.solve'])
                 continue
             check_system(ctx, dict(case, patterned=True), name, A, B, Xp.reshape(n * n, -1), 'PatternedTensor.solve')
+            queue_patsolve(ctx, name, pa, pb, xp_, dict(semiring=name, family=case['family']))
     # ---- corpus: systems on which an LU answer is slightly negative / -0.0 and must be rejected
     for A, B in [([[2.0]], [1e-4]), ([[1.5]], [1e-5]), ([[0.5, 1.0], [1.0, 0.5]], [1e-4, 1e-4]), ([[1.0]], [0.0]), ([[math.inf]], [0.0]),
                  ([[0.0, 2.0], [2.0, 0.0]], [1e-5, 0.0]),
@@ -362,6 +426,7 @@ def run(ctx):
         ctx.case(case, ('corpus', str(A), str(B)))
         x = S['real'].solve(A_t, B_t)
         check_system(ctx, case, 'real', A_t, B_t.reshape(len(B), 1), x.reshape(len(B), 1), 'Semiring.solve')
+    run_patsolve_model(ctx)
     # ---- multi_solve / multi_mv
     shapes_pool = [(), (2,), (3,), (2, 2)]
     for k in range(40 if ctx.quick else 700):
@@ -442,6 +507,13 @@ def run(ctx):
                 got = xs[x].to_dense().reshape(-1).tolist() if x in xs else [zero] * sizes[x]
                 m = mblocks[kidx[x]]
                 if len(got) != len(m) or not all(semgen.exact_eq(g, c, torch.float64) for g, c in zip(got, m)):
+                    if name == 'real' and len(got) == len(m) and _singular(A) and \
+                            all(semgen.exact_eq(g, c, torch.float64) or (isinstance(c, float) and c == math.inf and math.isfinite(g) and g > 1e9)
+                                for g, c in zip(got, m)):
+                        # finding D44 (exactly singular I - A, the LU fast path returns huge finite values where the least solution is
+                        # infinite): reported by check_system above with its tags; the model is right, nothing to add here
+                        ctx.count('multi_solve.model.D44-input')
+                        continue
                     ctx.disagree('Ms.multiSolve (block elimination in the implementation\'s order) vs multi_solve', dict(case, order=order, block=x), got, [str(c) for c in m])
                     break
             # multi_mv equals the dense matrix-vector product
